@@ -182,14 +182,19 @@ func c14CheckHistory(c *fw.Ctx, ops []extOp, fresh bool, useReset bool) {
 				panic("verif harness: model lost the name " + nm)
 			}
 			mn := model.Nodes[mid]
-			wantParent := model.ChainOfID(mn.Parent).String()
+			wantParent := ""
+			if mn.Parent >= 0 {
+				wantParent = model.ChainOfID(mn.Parent).String()
+			}
 			problem := ""
 			switch {
 			case lk == nil:
 				problem = "Lookup returned nil"
 			case lk.String() != mn.MIME || lk.Extension() != mn.Ext:
 				problem = fmt.Sprintf("Lookup returned %s|%s, want %s|%s", lk.String(), lk.Extension(), mn.MIME, mn.Ext)
-			case lk.Parent() == nil || lib.ChainOf(lk.Parent()).String() != wantParent:
+			case mn.Parent < 0 && lk.Parent() != nil:
+				problem = "Lookup returned a format with a parent for the root's name"
+			case mn.Parent >= 0 && (lk.Parent() == nil || lib.ChainOf(lk.Parent()).String() != wantParent):
 				problem = fmt.Sprintf("parent chain %s, want %s", lib.ChainOf(lk.Parent()), wantParent)
 			default:
 				for _, a := range mn.Aliases {
